@@ -684,7 +684,13 @@ def parse_grid(grid_data, parseAll=True):
             raise ZincParseException(
                 'Could not determine version from %r' % NEWLINE_RE.split(grid_data)[0],
                 grid_data, 1, 1)
-        version = Version(_unescape(ver_match.group(1)))
+        try:
+            version = Version(_unescape(ver_match.group(1)))
+        except ValueError as exc:
+            # the version string starts after ver:"
+            raise ZincParseException(
+                'Failed to parse: %s' % exc,
+                grid_data, 1, ver_match.start(1) + 1)
 
         # Now parse the grid of the grid accordingly
         # parseWithTabs: a TAB is a character of the text like any other
@@ -697,6 +703,9 @@ def parse_grid(grid_data, parseAll=True):
         raise ZincParseException(
             'Failed to parse: %s' % reformat_exception(pe, pe.lineno),
             grid_data, pe.lineno, pe.col)
+    except ZincParseException:
+        # raised above: it already carries its message and its position
+        raise
     except:
         LOG.debug('Failing grid: %r', grid_data, exc_info=1)
         (_, exc, _) = sys.exc_info()
